@@ -267,7 +267,8 @@ class Ctx:
             return
         h = hashlib.sha1(json.dumps([name, rec['case'], cls],
                                     sort_keys=True).encode()).hexdigest()[:10]
-        d = os.path.join(ROOT, 'replays', self.pid)
+        d = os.path.join(os.environ.get('VERIF_REPLAY_DIR') or
+                         os.path.join(ROOT, 'replays'), self.pid)
         os.makedirs(d, exist_ok=True)
         safe = ''.join(c if c.isalnum() or c in '-_.' else '_'
                        for c in cls)[:60]
@@ -335,7 +336,8 @@ class Ctx:
         }
         if error:
             ev['coverage']['check_error'] = True
-        d = os.path.join(ROOT, 'evidence')
+        d = os.environ.get('VERIF_EVIDENCE_DIR') or os.path.join(
+            ROOT, 'evidence')
         os.makedirs(d, exist_ok=True)
         with open(os.path.join(d, f'{self.pid}.json'), 'w') as f:
             json.dump(ev, f, indent=1, sort_keys=True)
